@@ -50,6 +50,22 @@ func uCatalogue(r *mon.Run) [][]byte {
 	for _, v := range []int64{2, 3, 4, 5, 9, 10, 16, 121665, 121666, 486662} {
 		addU(big.NewInt(v))
 	}
+	// strings that resemble the base point (the checked entry point has a fast path for it): 9 with one other
+	// bit set, 9 with one byte replaced
+	for bit := 0; bit < 256; bit++ {
+		u := make([]byte, 32)
+		u[0] = 9
+		u[bit/8] ^= 1 << uint(bit%8)
+		us = append(us, u)
+	}
+	for pos := 1; pos < 32; pos++ {
+		for _, b := range []byte{0x01, 0x55, 0x7f, 0x80, 0xff} {
+			u := make([]byte, 32)
+			u[0] = 9
+			u[pos] = b
+			us = append(us, u)
+		}
+	}
 	return us
 }
 
